@@ -163,7 +163,7 @@ impl ParseInfo {
         //let framedata = self.framedata;
         let framedata = self
             .framedata
-            .validate(&layers, pixel_format, palette.clone())?;
+            .validate(&layers, &tilesets, pixel_format, palette.clone())?;
 
         Ok(ValidatedParseInfo {
             layers,
